@@ -225,3 +225,13 @@ Proof.
   split; [vm_compute; reflexivity|]. split; [vm_compute; reflexivity|].
   intros p Hp. do 5 (destruct p as [|p]; [vm_compute; reflexivity|]). exfalso. lia.
 Qed.
+
+(* the model's processIf dispatches an accepted event exactly as process / processOne do: by the dispatcher stored with the
+   item when it was enqueued (hdispatch_event: by the item's tag).  That today's doProcessIf does so — doDispatchQueuedEvent
+   (item), not a call that selects the prototype again from the stored arguments — is read off the header (tie A).  With
+   prototypes that differ only in the value category of a parameter the two are different (harness/heter_ref.cpp probes that
+   configuration: the callbacks an event reaches must not depend on the call that consumes it). *)
+Theorem C14_processif_dispatches_like_process :
+  GenHeter.processif_dispatches_via_stored_dispatcher = true.
+Proof. reflexivity. Qed.
+Print Assumptions C14_processif_dispatches_like_process.
